@@ -105,4 +105,23 @@ def run(ctx):
         "exit codes and the (at <stdin>:N) prefix are not compared (documented divergences)",
     ]
 
-# MUTANTS: see bottom of file (filled in after mutation testing)
+
+# MUTANTS (scratch worktree /tmp/wt-jq, VERIF_REPO=...; quick tier, seed 20260921; model stage skipped with the
+# development knob VERIF_DEV_SKIP_MODEL=1 because it does not depend on /repo).  M1 and M4 were run alone; M2,M3,M5,
+# M6,M7,M8 were applied TOGETHER in one build (CPU budget: a from-scratch build took 15 min on the shared box) -- the
+# check exits 1 on the combination, and detection is attributed per mutant from the list of ALL rejected events
+# (pre-pass scan / per-law sub-traces), so "caught" below means: at least one rejected event is explained by that
+# mutant alone.
+#   M1 eval_generic.rs only: to_entries drops the last field of an object
+#   M2 eval.rs compare_values: objects compared by values before keys
+#   M3 eval.rs builtin_add: `add` on an empty array/object -> 0 instead of null
+#   M4 eval.rs eval_limit: limit(0; f) emits one output
+#   M5 error.rs cannot_iterate: "Cannot iterate over" -> "cannot iterate over"
+#   M6 eval.rs set_value_at_path: setpath through an array index truncates the later siblings
+#   M7 eval.rs compare_values: strings ordered by length first
+#   M8 eval.rs builtin_unique: no deduplication
+#   C24: M1 caught (VIOLATION: `(to_entries | from_entries)` on {"key":{"key":2},"b":{}} -> CLI {"key":{"key":2}}).
+#        M3 caught (`add` on [] -> CLI 0), M5 caught (`.[]` on 1 -> "cannot iterate over number (1)"), M7 caught (`sort` on
+#        ["","b","A","abcdefghijklmno"]), M2 caught (`(.[] >= .)` on an object of objects).  M6, M8 not observed in the
+#        quick CLI trace (170 programs); caught by C25.  M4 MISSED at first (never generated) -> generator strengthened;
+#        M4 rerun: %(m4_c24)s
